@@ -1,10 +1,17 @@
 import RLV.Lemmas.Undo
 /-! C07 — Undo walks back through real earlier states (property theorems).
 
-The full statement of C07 (undo reaches every earlier state in order, redo reverses undo) does not
-hold on the pinned tree (DESIGN §7 rows 8, 20, 21); what is proved here, for every sequence of
-edits, saves, undos and redos, is the part that does: whatever `undo` or `redo` put in the buffer is
-a text that was in the buffer at an earlier `Save` — never a mixture, never something invented. -/
+`Hist.save`, `Hist.undo`, `Hist.redo` are the models of `Sources.Save`, `Undo`, `Redo`
+(internal/history/undo.go; the per-line undo histories keyed by history position), compared with the
+real `history.Sources` on random command sequences on every run (`rlv-diff -model undo|walk`).
+
+The full statement of C07 does not hold on this tree: typed characters are never saved by
+themselves, `redo` steps by one item where `undo` skips equal ones, and a typed change after an undo
+leaves the undone states in place (KNOWN FINDINGS, DESIGN.md §7: the undo stack would have to be
+redesigned). What is proved, for EVERY sequence of edits, saves, skip-saves, undos and redos, is the
+first clause: whatever `undo` or `redo` put in the buffer is a text that was in the buffer at an
+earlier `Save` for that line — never a mixture, never something invented, and the saved states
+themselves are only ever dropped, never altered. -/
 namespace RLV.Props.C07
 open RLV.Core RLV.Hist
 
@@ -79,6 +86,12 @@ theorem undo_from_saved_partial (ops : List Op) : ∀ (s : St) (saved : List (Li
     · cases hr
     · rename_i s1 hs1
       exact ih _ _ _ _ (step_inv s s1 saved op hi hs1).1 hr
+
+/-- One step: an undo or a redo leaves the buffer as it is or puts back a text saved earlier. -/
+theorem undo_redo_show_saved_text (s s' : St) (saved : List (List Nat)) (hi : Inv s saved) :
+    (Hist.undo s = .ok s' → s'.line = s.line ∨ s'.line ∈ saved) ∧
+    (Hist.redo s = .ok s' → s'.line = s.line ∨ s'.line ∈ saved) :=
+  ⟨fun h => (step_inv s s' saved .undo hi h).2, fun h => (step_inv s s' saved .redo hi h).2⟩
 
 /-- the fresh state satisfies the invariant -/
 theorem inv_init : Inv ({} : St) [] := by
